@@ -432,13 +432,134 @@ theorem order_refines_portfolio (name node : String) (orders : List Order) (fe :
   rw [h1, h2]
   exact (hall L[i] (List.getElem_mem _)).2.2
 
-/- TARGET `order_refines_portfolio_full` (full execution at portfolio level, with `Problem.Feasible`): the same
-   three statements with `(assemble as gridI skip).Feasible` and `orderBookSem node orders g true`.  The
-   asset-local half is `order_refines_full` (exact, booleans included) and `order_bools_portfolio` (portfolio
-   consisting of the book alone).  Missing: a composition lemma for the boolean flags — `(assemble as …).boolVars`
-   is the union of the assets' `boolVarsOf` shifted by their offsets (needs `m.var < a.n` for ALL mapping rows,
-   not only dispatch rows as in `EAO.C09.Local`) — and a boolean variant of `EAO.C02.portfolio_refines`
-   (`Refines` speaks about `FeasibleRelaxed` only). -/
+/-! ## full execution at portfolio level: `Problem.Feasible` (boolean flags enforced)
+
+Generic ingredients (in `EAO/Lemmas/OrderBook.lean`, namespace `EAO.Textbook`): `MapInRange a` (every mapping row
+points at one of the asset's own variables), `feasible_bool_iff` (the boolean variables of the assembled problem
+are those of the assets, shifted by their offsets), `RefinesBool a S` (like `Refines`, for the asset's own
+problem WITH its boolean flags), `refinesBool_iff_refines` (the same thing for an asset without boolean
+variables), `portfolio_core_bool` (composition). -/
+
+theorem boolVarsOf_eq_bvars (M : List MapRow) : boolVarsOf M = Textbook.bvars M := rfl
+
+/-- **portfolio_refines_bool** — `EAO.C02.portfolio_refines` for `Problem.Feasible`: if every asset problem with
+    its boolean flags and its textbook semantics dominate each other (`RefinesBool`), then the assembled MIP and
+    the textbook portfolio match point-wise in both directions (same flows of every asset, no less value) and
+    have the same upper bounds of their value sets. -/
+theorem portfolio_refines_bool (as : List AssetProblem) (sems : List Textbook.AssetSem) (hlen : sems.length = as.length)
+    (gridI : List Nat) (skip : List String)
+    (hwf : ∀ a ∈ as, C09.WF gridI a) (hloc : ∀ a ∈ as, C09.Local a) (hrange : ∀ a ∈ as, Textbook.MapInRange a)
+    (href : ∀ i, (h : i < as.length) → Textbook.RefinesBool (as[i]) (sems[i]'(by omega))) :
+    (∀ x, (assemble as gridI skip).Feasible x →
+      ∃ V, (assemble as gridI skip).value x ≤ V ∧
+        Textbook.portfolioAttain sems skip (fun i n t => C09.flow (as.getD i default) n t (C09.block as i x)) V) ∧
+    (∀ fl V, Textbook.portfolioAttain sems skip fl V →
+      ∃ x, (assemble as gridI skip).Feasible x ∧ V ≤ (assemble as gridI skip).value x ∧
+        ∀ i, i < as.length → ∀ n t, C09.flow (as.getD i default) n t (C09.block as i x) = fl i n t) ∧
+    (∀ B, (∀ x, (assemble as gridI skip).Feasible x → (assemble as gridI skip).value x ≤ B) ↔
+          (∀ fl V, Textbook.portfolioAttain sems skip fl V → V ≤ B)) := by
+  obtain ⟨h1, h2⟩ := Textbook.portfolio_core_bool as sems hlen gridI skip
+    (fun a ha => ⟨(hwf a ha).len_l, (hwf a ha).len_u⟩) (fun a ha => (hwf a ha).disp)
+    (fun a ha => (hloc a ha).cols) hrange href
+  refine ⟨h1, h2, ?_⟩
+  intro B
+  constructor
+  · intro hB fl V hV
+    obtain ⟨x, hx, hle, _⟩ := h2 fl V hV
+    exact Rat.le_trans hle (hB x hx)
+  · intro hB x hx
+    obtain ⟨V, hle, hV⟩ := h1 x hx
+    exact Rat.le_trans hle (hB _ V hV)
+
+/-- every mapping row of the order book points at one of its variables (no hypothesis on the grid) -/
+theorem orderbook_mapInRange (name node : String) (orders : List Order) (fe : Bool) (g : Grid) :
+    Textbook.MapInRange (orderBookProblem name node orders fe g) := by
+  intro m hm
+  obtain ⟨j, o, i, hj, _, rfl⟩ := mem_orderMapFrom name node fe g orders 0 m hm
+  have hjl : j < orders.length := by
+    rcases Nat.lt_or_ge j orders.length with h | h
+    · exact h
+    · rw [List.getElem?_eq_none h] at hj; cases hj
+  simpa [orderRow, orderBookProblem, AssetProblem.n] using hjl
+
+/-- **order_refinesBool**: the full-execution order book with its boolean flags refines the textbook order book
+    with every fraction in `{0,1}` (equal sets of pairs, `order_refines_full`) -/
+theorem order_refinesBool (name node : String) (orders : List Order) (g : Grid) :
+    Textbook.RefinesBool (orderBookProblem name node orders true g) (orderBookSem node orders g true) :=
+  ⟨fun fl c hs => ⟨c, Rat.le_refl, (order_refines_full name node orders g fl c).mp hs⟩,
+   fun fl c hs => ⟨c, Rat.le_refl, (order_refines_full name node orders g fl c).mpr hs⟩⟩
+
+/-- **order_refines_portfolio_full**: a portfolio containing a FULL-EXECUTION order book at any position, whose
+    other assets `p.1` are well-formed, local, have their mapping in range and refine their textbook semantics
+    `p.2` with their own boolean flags (`RefinesBool`; other MIP assets are allowed), has — with the boolean flags
+    enforced, `Problem.Feasible` — (1) every feasible point matched by a point of the textbook portfolio in which
+    the book is the per-order formulation with every fraction in `{0,1}`, same flows of every asset and no less
+    value, (2) conversely, (3) the SAME upper bounds of its value set as that textbook portfolio. -/
+theorem order_refines_portfolio_full (name node : String) (orders : List Order) (g : Grid)
+    (pre suf : List (AssetProblem × Textbook.AssetSem)) (gridI : List Nat) (skip : List String)
+    (hlen : g.idx.length = g.T) (hsteps : ∀ t ∈ g.idx, t ∈ gridI)
+    (hothers : ∀ p ∈ pre ++ suf,
+      C09.WF gridI p.1 ∧ C09.Local p.1 ∧ Textbook.MapInRange p.1 ∧ Textbook.RefinesBool p.1 p.2) :
+    let L := pre ++ (orderBookProblem name node orders true g, orderBookSem node orders g true) :: suf
+    let as := L.map (·.1)
+    let sems := L.map (·.2)
+    (∀ x, (assemble as gridI skip).Feasible x →
+      ∃ V, (assemble as gridI skip).value x ≤ V ∧
+        Textbook.portfolioAttain sems skip (fun i n t => C09.flow (as.getD i default) n t (C09.block as i x)) V) ∧
+    (∀ fl V, Textbook.portfolioAttain sems skip fl V →
+      ∃ x, (assemble as gridI skip).Feasible x ∧ V ≤ (assemble as gridI skip).value x ∧
+        ∀ i, i < as.length → ∀ n t, C09.flow (as.getD i default) n t (C09.block as i x) = fl i n t) ∧
+    (∀ B, (∀ x, (assemble as gridI skip).Feasible x → (assemble as gridI skip).value x ≤ B) ↔
+          (∀ fl V, Textbook.portfolioAttain sems skip fl V → V ≤ B)) := by
+  intro L as sems
+  have hcomp := orderbook_composable name node orders true g gridI hlen hsteps
+  have hall : ∀ p ∈ L, C09.WF gridI p.1 ∧ C09.Local p.1 ∧ Textbook.MapInRange p.1 ∧ Textbook.RefinesBool p.1 p.2 := by
+    intro p hp
+    rcases List.mem_append.mp hp with h | h
+    · exact hothers p (List.mem_append_left _ h)
+    · rcases List.mem_cons.mp h with h | h
+      · subst h
+        exact ⟨hcomp.1, hcomp.2, orderbook_mapInRange name node orders true g, order_refinesBool name node orders g⟩
+      · exact hothers p (List.mem_append_right _ h)
+  have hmem : ∀ a ∈ as, ∃ p ∈ L, a = p.1 := by
+    intro a ha
+    obtain ⟨p, hp, rfl⟩ := List.mem_map.mp ha
+    exact ⟨p, hp, rfl⟩
+  have hl : sems.length = as.length := by simp [as, sems]
+  refine portfolio_refines_bool as sems hl gridI skip
+    (fun a ha => by obtain ⟨p, hp, rfl⟩ := hmem a ha; exact (hall p hp).1)
+    (fun a ha => by obtain ⟨p, hp, rfl⟩ := hmem a ha; exact (hall p hp).2.1)
+    (fun a ha => by obtain ⟨p, hp, rfl⟩ := hmem a ha; exact (hall p hp).2.2.1) ?_
+  intro i hi
+  have hiL : i < L.length := by simpa [as] using hi
+  have h1 : as[i] = (L[i]).1 := by simp [as]
+  have h2 : sems[i]'(by omega) = (L[i]).2 := by simp [sems]
+  rw [h1, h2]
+  exact (hall L[i] (List.getElem_mem _)).2.2.2
+
+/-- **order_refines_portfolio_full_lp_others**: the special case in which the other assets have no boolean
+    variables (all LP assets of C02): their relaxed `Refines` is enough. -/
+theorem order_refines_portfolio_full_lp_others (name node : String) (orders : List Order) (g : Grid)
+    (pre suf : List (AssetProblem × Textbook.AssetSem)) (gridI : List Nat) (skip : List String)
+    (hlen : g.idx.length = g.T) (hsteps : ∀ t ∈ g.idx, t ∈ gridI)
+    (hothers : ∀ p ∈ pre ++ suf,
+      C09.WF gridI p.1 ∧ C09.Local p.1 ∧ Textbook.MapInRange p.1 ∧ boolVarsOf p.1.mapping = [] ∧
+      Textbook.Refines p.1 p.2) :
+    let L := pre ++ (orderBookProblem name node orders true g, orderBookSem node orders g true) :: suf
+    let as := L.map (·.1)
+    let sems := L.map (·.2)
+    (∀ x, (assemble as gridI skip).Feasible x →
+      ∃ V, (assemble as gridI skip).value x ≤ V ∧
+        Textbook.portfolioAttain sems skip (fun i n t => C09.flow (as.getD i default) n t (C09.block as i x)) V) ∧
+    (∀ fl V, Textbook.portfolioAttain sems skip fl V →
+      ∃ x, (assemble as gridI skip).Feasible x ∧ V ≤ (assemble as gridI skip).value x ∧
+        ∀ i, i < as.length → ∀ n t, C09.flow (as.getD i default) n t (C09.block as i x) = fl i n t) ∧
+    (∀ B, (∀ x, (assemble as gridI skip).Feasible x → (assemble as gridI skip).value x ≤ B) ↔
+          (∀ fl V, Textbook.portfolioAttain sems skip fl V → V ≤ B)) :=
+  order_refines_portfolio_full name node orders g pre suf gridI skip hlen hsteps
+    (fun p hp => by
+      obtain ⟨h1, h2, h3, h4, h5⟩ := hothers p hp
+      exact ⟨h1, h2, h3, (Textbook.refinesBool_iff_refines p.1 p.2 h4).mpr h5⟩)
 
 /-- the well-formedness the accounting theorems (C04) ask of an asset problem, restated locally:
     mapping rows carry the asset's name, point at one of its variables and at a step `< T`; a variable
@@ -525,3 +646,116 @@ example := order_refines_portfolio "ob" "n" exOrders false exGrid [] [] [0, 1, 2
   (by intro p hp; cases hp)
 
 end EAO.C20
+
+/-! ### non-vacuity of the full-execution portfolio theorems
+
+Market contract (sells up to 3 at price 3) and a full-execution book with two buy orders (2 units at 1, 2 units at
+2) on one step.  All-or-nothing optimum 4 (order 0 only), relaxed optimum at least 5 (order 0 and half of order 1). -/
+namespace EAO.C20.ExFull
+open EAO EAO.OrderBook EAO.C20
+
+/-- one hourly step -/
+def g1 : Grid := { pts := [0], idx := [0], dt := [1], Dt := [1], df := [1] }
+/-- market at node "n": sells up to 3 at price 3 (one variable in `[-3, 0]`, cost 3) -/
+def market : AssetProblem :=
+  { name := "market", nodes := ["n"], c := [3], l := [-3], u := [0], rows := [],
+    mapping := [{ var := 0, asset := "market", node := some "n", kind := .d, step := 0, factor := 1,
+                  isBool := false, varName := "disp" }] }
+/-- two buy orders over the step: 2 units at price 1, 2 units at price 2 -/
+def ords : List Order := [{ start := 0, stop := 3600, capa := 2, price := 1 }, { start := 0, stop := 3600, capa := 2, price := 2 }]
+def book : AssetProblem := orderBookProblem "ob" "n" ords true g1
+def P : Problem := assemble [market, book] [0] []
+def vec (xs : List Rat) : Vec := fun j => xs.getD j 0
+
+theorem refines_self (a : AssetProblem) : Textbook.Refines a (Textbook.attainEAO a) :=
+  ⟨fun _ c h => ⟨c, Rat.le_refl, h⟩, fun _ c h => ⟨c, Rat.le_refl, h⟩⟩
+
+theorem market_ok : C09.WF [0] market ∧ C09.Local market ∧ Textbook.MapInRange market ∧
+    boolVarsOf market.mapping = [] ∧ Textbook.Refines market (Textbook.attainEAO market) := by
+  refine ⟨⟨rfl, rfl, ?_⟩, ⟨?_, ?_⟩, ?_, by decide, refines_self market⟩
+  · intro m hm n _ hn
+    simp [market] at hm
+    subst hm
+    simp at hn
+    subst hn
+    simp [market]
+  · intro r hr; cases hr
+  · intro m hm _
+    simp [market] at hm
+    subst hm
+    decide
+  · intro m hm
+    simp [market] at hm
+    subst hm
+    decide
+
+theorem others_ok : ∀ p ∈ [(market, Textbook.attainEAO market)] ++ ([] : List (AssetProblem × Textbook.AssetSem)),
+    C09.WF [0] p.1 ∧ C09.Local p.1 ∧ Textbook.MapInRange p.1 ∧ boolVarsOf p.1.mapping = [] ∧
+      Textbook.Refines p.1 p.2 := by
+  intro p hp
+  simp at hp
+  subst hp
+  exact market_ok
+
+/-- the hypotheses of `order_refines_portfolio_full_lp_others` are met -/
+example := order_refines_portfolio_full_lp_others "ob" "n" ords g1 [(market, Textbook.attainEAO market)] [] [0] []
+  (by decide) (by decide) others_ok
+
+-- all-or-nothing: execute order 0, sell 2 — value 4, feasible with the boolean flags
+example : P.Feasible (vec [-2, 1, 0]) ∧ P.value (vec [-2, 1, 0]) = 4 := by decide +kernel
+-- relaxed: execute order 0 and half of order 1, sell 3 — value 5, feasible only without the flags
+example : P.FeasibleRelaxed (vec [-3, 1, 1/2]) ∧ ¬ P.Feasible (vec [-3, 1, 1/2]) ∧ P.value (vec [-3, 1, 1/2]) = 5 := by
+  decide +kernel
+example : P.boolVars = [1, 2] := by decide +kernel
+
+theorem cov0 : ∀ o ∈ ords, covered g1 o = [0] := by decide
+
+theorem delivered_eq (fr : Nat → Rat) : delivered g1 ords fr 0 = 2 * fr 0 + 2 * fr 1 := by
+  have h0 : covered g1 { start := 0, stop := 3600, capa := 2, price := 1 } = [0] := by decide
+  have h1 : covered g1 { start := 0, stop := 3600, capa := 2, price := 2 } = [0] := by decide
+  simp only [delivered, ords, List.zipIdx_cons, List.zipIdx_nil, List.map_cons, List.map_nil, h0, h1]
+  simp [Textbook.stepOf, Textbook.dtOf, g1]
+  grind
+
+theorem paid_eq (fr : Nat → Rat) : paid g1 ords fr = 2 * fr 0 + 4 * fr 1 := by
+  have h0 : covered g1 { start := 0, stop := 3600, capa := 2, price := 1 } = [0] := by decide
+  have h1 : covered g1 { start := 0, stop := 3600, capa := 2, price := 2 } = [0] := by decide
+  simp only [paid, ords, List.zipIdx_cons, List.zipIdx_nil, List.map_cons, List.map_nil, h0, h1]
+  simp [Textbook.dfOf, Textbook.dtOf, g1]
+  grind
+
+/-- the all-or-nothing optimum is 4 (attained above), obtained on the TEXTBOOK side through statement (3) of
+    `order_refines_portfolio_full_lp_others`; the relaxed problem reaches 5 -/
+theorem full_optimum : ∀ x, P.Feasible x → P.value x ≤ 4 := by
+  have inst := order_refines_portfolio_full_lp_others "ob" "n" ords g1 [(market, Textbook.attainEAO market)] [] [0] []
+    (by decide) (by decide) others_ok
+  apply (inst.2.2 4).mpr
+  rintro fl V ⟨c, hat, hbal, rfl⟩
+  obtain ⟨y, hy, hfl0, hc0⟩ := hat 0 (by decide)
+  obtain ⟨fr, hb, hfull, hfl1, hc1⟩ := hat 1 (by decide)
+  have hbal0 := hbal "n" (by decide) 0
+  have hy0 := hy.1 0 (by decide)
+  have e0 : fl 0 "n" 0 = y 0 := by
+    rw [hfl0]
+    simp [Perm.flowOf, market, isDisp, MapRow.contrib]
+    grind
+  have e1 : fl 1 "n" 0 = 2 * fr 0 + 2 * fr 1 := by
+    rw [hfl1]; simp [delivered_eq]
+  have ec0 : c 0 = - (3 * y 0) := by
+    rw [hc0]; simp [market, costAt]; grind
+  have ec1 : c 1 = - (2 * fr 0 + 4 * fr 1) := by
+    rw [hc1, paid_eq]
+  have hsum : Textbook.sumN (fun i => fl i "n" 0) 2 = fl 0 "n" 0 + fl 1 "n" 0 := by
+    simp [Textbook.sumN, List.range_succ]; grind
+  have hV : Textbook.sumN c 2 = c 0 + c 1 := by
+    simp [Textbook.sumN, List.range_succ]; grind
+  have hl : ([Textbook.attainEAO market, orderBookSem "n" ords g1 true] : List Textbook.AssetSem).length = 2 := rfl
+  simp only [List.map_cons, List.map_nil, List.cons_append, List.nil_append, List.length_cons, List.length_nil] at hbal0 ⊢
+  rw [hsum, e0, e1] at hbal0
+  rw [hV, ec0, ec1]
+  have hy1 : -3 ≤ y 0 := by simpa [market] using hy0.1
+  have f0 := hfull rfl 0 (by decide)
+  have f1 := hfull rfl 1 (by decide)
+  rcases f0 with f0 | f0 <;> rcases f1 with f1 | f1 <;> rw [f0, f1] at hbal0 ⊢ <;> grind
+
+end EAO.C20.ExFull
